@@ -88,6 +88,8 @@ SchemaElems == { El("g1__schema__", "v", VRec("a", "L1", D0)) }
 Alphabet == G1Elems \cup G2Elems \cup MissingElems \cup SchemaElems
 \* the part of the alphabet on which even the pinned server loop is expected to work
 SafeAlphabet == G1Elems \cup G2Elems \cup SchemaElems
+\* three elements that suffice for the schedule-dependent behaviours (same id twice in g1, g2 in between)
+MiniAlphabet == { El("g1", "v", VRec("a", "L1", D0)), El("g1", "v", VRec("a", "L1", D1)), El("g2", "v", VRec("a", "L1", D1)) }
 
 \* what the caller may write: everything (no accounts configured), or the policy grants one graph only
 AllGraphs == Existing \cup {"g3", "", "g1__schema__"}
